@@ -39,6 +39,25 @@ def _warm(obj, seed):
     obj.cm(_np.array([0.0, 1.0]))
 
 
+DOC_DEFAULTS = {"nb_easy_pos": 0, "nb_easy_neg": 0, "score_class": "pos", "equal_class": "pos", "pos_label": 1, "method": "linear", "x_axis": "fpr", "alpha": 0.05}
+
+
+def call_form(seed, kwargs):
+    """The documented defaults are part of the interface: an argument whose value *is* its documented default may just as well
+    be left out. Which ones are left out is drawn per case (and for some cases every argument is spelled out)."""
+    form = (int(seed) * 2654435761 >> 7) % 4
+    if form == 0:
+        return dict(kwargs)
+    out = {}
+    for i, (k, v) in enumerate(kwargs.items()):
+        dflt = DOC_DEFAULTS.get(k, None)
+        is_default = k in DOC_DEFAULTS and (str(getattr(v, "value", v)) == str(dflt) if isinstance(dflt, str) else (type(v) in (int, float) and v == dflt))
+        if is_default and (form == 1 or (int(seed) >> i) & 1):
+            continue
+        out[k] = v
+    return out
+
+
 def build(pos, neg, ep, en, sc, ec, via, seed=0):
     from score_analysis import Scores
 
@@ -54,7 +73,7 @@ def build(pos, neg, ep, en, sc, ec, via, seed=0):
         labels = np.concatenate([np.ones(len(pos_a), dtype=int), np.zeros(len(neg_a), dtype=int)])
         allv = np.concatenate([pos_a, neg_a]) if len(pos_a) + len(neg_a) else np.zeros(0)
         perm = np.random.default_rng(seed).permutation(len(allv))
-        return Scores.from_labels(labels[perm], allv[perm], nb_easy_pos=ep, nb_easy_neg=en, score_class=sc, equal_class=ec)
+        return Scores.from_labels(labels[perm], allv[perm], **call_form(seed, dict(nb_easy_pos=ep, nb_easy_neg=en, score_class=sc, equal_class=ec)))
     if via.startswith("sample_") and len(pos) and len(neg):
         # a bootstrap sample is a Scores object of its own (other content, but every property of Scores applies to it)
         from score_analysis import BootstrapConfig
@@ -96,7 +115,7 @@ def build(pos, neg, ep, en, sc, ec, via, seed=0):
         roc(obj, nb_points=None)
         obj.pos, obj.neg = np.sort(np.asarray(pos)), np.sort(np.asarray(neg))
         return obj
-    s = Scores(pos, neg, nb_easy_pos=ep, nb_easy_neg=en, score_class=sc, equal_class=ec)
+    s = Scores(pos, neg, **call_form(seed, dict(nb_easy_pos=ep, nb_easy_neg=en, score_class=sc, equal_class=ec)))
     if via == "queried_before":
         _warm(s, seed)
     return s
